@@ -29,13 +29,16 @@ META = {
 }
 
 TEXTS = []
+N_SHORT = 4      # the short documents; TEXTS[4] is the long score (frame lemma and two-imports obligations only)
 
 
 def load(tier):
     global TEXTS
     P = docs.pool()
+    from sv.ref import longdoc
     TEXTS = [P[0].text(), P[2].text(), P[4].text(),
-             '**kern\t**kern\n4c\t4e\n*clefG2\t*\n=1\t=1\n4d#\t4f\n*M4/4\t*\n=2\t=2\n2g\t2b\n*-\t*-\n']     # notes before the first clef, unequal signatures
+             '**kern\t**kern\n4c\t4e\n*clefG2\t*\n=1\t=1\n4d#\t4f\n*M4/4\t*\n=2\t=2\n2g\t2b\n*-\t*-\n',     # notes before the first clef, unequal signatures
+             longdoc.long_doc(ctx.pick(260, 1200), True, 100).text()]      # a long score (C14.a / C14.c only in the quick tier)
 
 
 ENC = list(kp.Encoding)
@@ -98,7 +101,31 @@ OPS = [
     ('get_unique_tokens(empty filter)', 2, lambda doc, p: _norm_tokens(doc.get_unique_tokens(filter_by_categories=([], set())[p]))),
     ('frequencies(empty filter)', 1, lambda doc, p: sorted(doc.frequencies(token_categories=[]).items())),
     ('one Exporter object reused', 4, lambda doc, p: _exporter_reuse(doc, p)),
+    ('iteration left early', 4, lambda doc, p: _partial_iteration(doc, p)),
 ]
+
+
+def _partial_iteration(doc, p):
+    """Loops over the document that are NOT run to the end: a peek, a break, an exception in the body, two interleaved loops."""
+    if p == 0:
+        return (next(iter(doc)), list(doc))
+    if p == 1:
+        seen = []
+        for m in doc:
+            seen.append(m)
+            if len(seen) == 2:
+                break
+        return (seen, list(doc))
+    if p == 2:
+        try:
+            for m in doc:
+                raise KeyError(m)
+        except KeyError:
+            pass
+        return list(doc)
+    a, b = iter(doc), iter(doc)
+    first = (next(a), next(b))
+    return (first, list(a), list(b), list(doc))
 
 
 def _exporter_reuse(doc, p):
@@ -172,8 +199,8 @@ def _a_body(d, inst):
 
 def ob_a2(d: int, a: int, b: int) -> bool:
     """dumps with arbitrary integer from_measure / to_measure (including values that raise) leaves the document untouched."""
-    assume(0 <= d < len(TEXTS))
-    di = choose(d, len(TEXTS))
+    assume(0 <= d < N_SHORT)
+    di = choose(d, N_SHORT)
     doc = _fresh(di)
     before = _snap(doc)
     try:
@@ -220,7 +247,7 @@ def _dumps_range(di, a, b):
 
 # ------------------------------------------------------------------ C14.b two-step histories
 def ob_b(d: int, o1: int, o2: int) -> bool:
-    nd = ctx.pick(len(B_DOCS), len(TEXTS))
+    nd = ctx.pick(len(B_DOCS), N_SHORT)
     n2 = ctx.pick(len(OBS), len(INST))
     assume(0 <= d < nd and 0 <= o1 < len(INST) and 0 <= o2 < n2)
     return _b_body(choose(d, nd), choose(o1, len(INST)), choose(o2, n2))
